@@ -39,8 +39,10 @@ let handle line =
              let c1 = int_of_string c1 and c2 = int_of_string c2 in
              let segs = [take c1 w; take (c2 - c1) (drop c1 w); drop c2 w] in
              let res = run_segs lim0 [] init segs [] [] in
-             let ok = (res = ((final_state lim0 r, [expected_rec r]), ROk [])) in
              let e = expected_rec r in
+             let final = { lines = []; tail = []; payload = None; upgraded = false; pending_upgrade = false;
+                           should_close = e.r_msg.m_close; in_flight = n_of_int 1 } in
+             let ok = (res = ((final, [e]), ROk [])) in
              let mm = e.r_msg in
              let hl = String.concat " " (List.map (fun (k, v) -> hex_of_bytes k ^ " " ^ hex_of_bytes v) mm.m_headers) in
              Printf.sprintf "OK %s %s %s %s %d%d %s %d %s %s %s"
